@@ -249,7 +249,7 @@ PROBE_ALPHA = ['a', 'b', 'Z', '0', '-', ' ', ' ', '\t', "'", '"', '\\', 'Ã©', 'â
 @st.composite
 def probe_cases(draw):
     args = draw(st.lists(st.text(alphabet=PROBE_ALPHA, min_size=1, max_size=5), min_size=0, max_size=4))
-    form = draw(st.sampled_from(['string', 'string', 'list', 'popen', 'popen-string', 'bare', 'run']))
+    form = draw(st.sampled_from(['string', 'string', 'list', 'popen', 'popen-string', 'bare', 'run', 'envpath']))
     enc = draw(st.sampled_from([None, None, 'utf-8', 'latin-1', 'iso2022_jp']))
     if enc == 'latin-1':
         args = [a.replace('â‚¬', 'Ã©') for a in args]
@@ -316,9 +316,58 @@ def _set_umask():
     os.umask(0o027)
 
 
+def check_envpath(case, col=None):
+    """A bare command name that only the PATH of the env argument leads to (the caller's own PATH has no such
+    program, or another one of the same name when 'echo' is set): every launch form starts the program found through
+    the env argument's PATH, with the arguments as given."""
+    import stat
+    root = tempfile.mkdtemp(prefix='c13e_')
+    saved_path = os.environ.get('PATH')
+    try:
+        for d, word in (('right', 'RIGHT'), ('wrong', 'WRONG')):
+            os.mkdir(os.path.join(root, d))
+            fn = os.path.join(root, d, 'c13prog')
+            with open(fn, 'w') as f:
+                f.write('#!/bin/sh\nprintf "%s" "' + word + '"\nfor a in "$@"; do printf "[%s]" "$a"; done\necho\n')
+            os.chmod(fn, os.stat(fn).st_mode | stat.S_IXUSR | stat.S_IXGRP | stat.S_IXOTH)
+        env = {'PATH': os.path.join(root, 'right') + os.pathsep + '/usr/bin' + os.pathsep + '/bin', 'LANG': 'C'}
+        shadow = bool(case['echo'])
+        if shadow:
+            os.environ['PATH'] = os.path.join(root, 'wrong') + os.pathsep + (saved_path or '')
+        how = ['string', 'list', 'run', 'list-noargs'][len(case['args']) % 4]
+        with guard('launch by bare name through the PATH of env (%s)' % how, allow=()):
+            if how == 'run':
+                out = pexpect.run('c13prog x y', env=env, timeout=20)
+            else:
+                if how == 'string':
+                    child = pexpect.spawn('c13prog x y', env=env, timeout=20)
+                elif how == 'list':
+                    child = pexpect.spawn('c13prog', ['x', 'y'], env=env, timeout=20)
+                else:
+                    child = pexpect.spawn('c13prog', [], env=env, timeout=20)
+                child.expect(pexpect.EOF)
+                out = child.before
+                child.close()
+        want = b'RIGHT' + (b'' if how == 'list-noargs' else b'[x][y]')
+        if out.strip() != want:
+            raise Violation('envpath:' + how, 'c13prog launched as %s with env PATH=%r%s printed %r, expected %r'
+                            % (how, env['PATH'], ' (another c13prog first on os.environ PATH)' if shadow else '', out.strip()[:80], want))
+    finally:
+        if saved_path is None:
+            os.environ.pop('PATH', None)
+        else:
+            os.environ['PATH'] = saved_path
+        shutil.rmtree(root, ignore_errors=True)
+    if col is not None:
+        col.label('probe:envpath:' + how)
+        col.case(case, True)
+
+
 def check_probe(case, col=None):
     if case['form'] == 'bare':
         return check_bare(case, col)
+    if case['form'] == 'envpath':
+        return check_envpath(case, col)
     from pexpect.popen_spawn import PopenSpawn
     root = tempfile.mkdtemp(prefix='c13p_')
     saved_hup = None
